@@ -48,9 +48,10 @@ def operands(ctx, prog, ty, tag):
     elif ty == 'DateTime':
         t = ctx.fresh_bv('t', 64); a = ctx.fresh_bv('a', 64); b = ctx.fresh_bv('b', 64)
         ctx.assume(a <= b)
-        g[lf] = E.mk_variant(prog, 'DateTime', dt_from=some(DateTimeV(t)), dt_to=some(DateTimeV(t)))
+        ns = ctx.fresh_bv('nanos', 32); ctx.assume(z3.ULT(ns, BitVecVal(1000000000, 32)))
+        g[lf] = E.mk_variant(prog, 'DateTime', dt_from=some(DateTimeV(t, ns)), dt_to=some(DateTimeV(t, ns)))
         g[rf] = E.mk_variant(prog, 'DateTime', dt_from=some(DateTimeV(a)), dt_to=some(DateTimeV(b)))
-        sym = {'t': t, 'a': a, 'b': b}
+        sym = {'t': t, 'a': a, 'b': b, 'ns': ns}
     elif ty == 'String':
         # subject: symbolic text; pattern: a concrete representative per is_glob class
         subj = Str(term=ctx.fresh('subj', z3.StringSort()))
@@ -119,7 +120,10 @@ def witness_to_cli(ty, op, vals):
         t, a, b = vals['t'], vals['a'], vals['b']
         if a % 86400 == 0 and b == a + 86399 and 946684800 <= a <= 1893456000 and 946684800 <= t <= 1893456000:
             day = time.strftime('%Y-%m-%d', time.gmtime(a))
-            return 'modified %s %s' % (optxt, day), {'f': {'size': 1, 'mtime': t}}
+            ent = {'size': 1, 'mtime': t}
+            if vals.get('ns'):
+                ent['mtime_ns'] = t * 1000000000 + vals['ns']      # the sub-second part of the witness
+            return 'modified %s %s' % (optxt, day), {'f': ent}
     return None
 
 
